@@ -51,7 +51,13 @@ impl<T: RealNumber> F1<T> {
         let p = Precision {}.get_score(y_true, y_pred);
         let r = Recall {}.get_score(y_true, y_pred);
 
-        (T::one() + beta2) * (p * r) / (beta2 * p + r)
+        let denominator = beta2 * p + r;
+        if denominator == T::zero() {
+            // no true positive although precision and recall are defined: the confusion counts give F = 0
+            return T::zero();
+        }
+
+        (T::one() + beta2) * (p * r) / denominator
     }
 }
 
